@@ -26,7 +26,7 @@ def import_library():
     lg.propagate = False
     import space_packet_parser  # noqa: F401
     from space_packet_parser import packets
-    got = os.path.realpath(os.path.dirname(os.path.dirname(packets.__file__)))
+    got = os.path.realpath(os.path.dirname(os.path.dirname(space_packet_parser.__file__)))   # (packets may be a module or a package)
     want = os.path.realpath(REPO)
     if got != want:
         raise RuntimeError(f"space_packet_parser imported from {got}, expected {want}")
